@@ -56,3 +56,8 @@ package graphsync
 //@   assumed
 //@   modifies nothing
 //@   ensures result == ridBytes(r)
+
+//@ -- C02 / C06: whether the responder walked below a link (present, or present-but-not-sent) or not (missing, skipped)
+//@ func LinkAction.DidFollowLink
+//@   modifies nothing
+//@   ensures result == (l == LinkActionPresent || l == LinkActionDuplicateNotSent)
